@@ -20,6 +20,7 @@ type Op struct {
 	Path    []gn.Elem `json:"path,omitempty"`
 	Element bool      `json:"element,omitempty"` // deprecated path encoding
 	Val     gn.Val    `json:"val,omitempty"`
+	Cut     int       `json:"cut,omitempty"` // multi: the delete path is the first Cut elements of prefix+path
 }
 
 // Target is one configured target and its stream.
@@ -179,6 +180,22 @@ func genTarget(t *rapid.T, i, servers, requests int) Target {
 		k := opKey(o)
 		if conflict(k) {
 			continue // keep the leaf set prefix-free (conflicts belong to C02/C09)
+		}
+		if !o.Element && rapid.IntRange(0, 4).Draw(t, "replace") == 0 {
+			// a "replace": the same notification deletes a subtree that covers this update
+			all := len(o.Prefix) + len(o.Path)
+			o.Kind = "multi"
+			o.Cut = rapid.IntRange(1, all).Draw(t, "cut")
+			origin := o.Origin
+			if origin == "" {
+				origin = "openconfig"
+			}
+			pat := append([]string{origin}, gn.IndexOfElems(append(append([]gn.Elem{}, o.Prefix...), o.Path...)[:o.Cut], false)...)
+			for s := range stored {
+				if gn.Matches(pat, gn.Unkey(s)) {
+					delete(stored, s)
+				}
+			}
 		}
 		stored[gn.Key(k)] = true
 		tg.Ops = append(tg.Ops, o)
